@@ -21,6 +21,18 @@ type doneConn interface {
 	Done() <-chan struct{}
 }
 
+// closeTimed calls Close under a watchdog (a Close that never returns is a finding, not a hang of the harness).
+func closeTimed(c net.Conn) bool {
+	done := make(chan struct{})
+	go func() { c.Close(); close(done) }()
+	select {
+	case <-done:
+		return true
+	case <-time.After(20 * time.Second):
+		return false
+	}
+}
+
 func isDone(c net.Conn) bool {
 	if d, ok := c.(doneConn); ok {
 		select {
@@ -47,7 +59,12 @@ func c11Run(ops []string, seed int) (lines []string, viols []Violation, info map
 		viol("C11/setup", err.Error())
 		return
 	}
-	defer st.Shutdown()
+	abandon := false // a wedged connection is left behind rather than shut down (that could hang too)
+	defer func() {
+		if !abandon {
+			st.Shutdown()
+		}
+	}()
 	st.EagerAccept = seed%2 == 0
 	info = map[string]interface{}{"eager_accept": st.EagerAccept}
 	if dbgRelay != nil {
@@ -128,31 +145,55 @@ func c11Run(ops []string, seed int) (lines []string, viols []Violation, info map
 		case "close-client", "close-server", "relay-failure", "relay-outage":
 			switch op {
 			case "close-client":
-				cli.Mailbox.Close()
+				if !closeTimed(cli.Mailbox) {
+					viol("C11/close-does-not-return", "Close of the client's mailbox connection had not returned after 20 s")
+					abandon = true
+					return
+				}
 				add("sess.closed c")
 				// the server application notices on its next read and closes its end
 				srv.Mailbox.SetReadDeadline(time.Now().Add(25 * time.Second))
 				if _, err := srv.Conn.Read(make([]byte, 10)); err == nil {
 					viol("C11/peer-close-unnoticed", "server read succeeded after the client closed")
 				}
-				srv.Mailbox.Close()
+				if !closeTimed(srv.Mailbox) {
+					viol("C11/close-does-not-return", "Close of the server's mailbox connection had not returned after 20 s")
+					abandon = true
+					return
+				}
 				add("sess.closed s")
 			case "close-server":
-				srv.Mailbox.Close()
+				if !closeTimed(srv.Mailbox) {
+					viol("C11/close-does-not-return", "Close of the server's mailbox connection had not returned after 20 s")
+					abandon = true
+					return
+				}
 				add("sess.closed s")
 				cli.Mailbox.SetReadDeadline(time.Now().Add(25 * time.Second))
 				if _, err := cli.Conn.Read(make([]byte, 10)); err == nil {
 					viol("C11/peer-close-unnoticed", "client read succeeded after the server closed")
 				}
-				cli.Mailbox.Close()
+				if !closeTimed(cli.Mailbox) {
+					viol("C11/close-does-not-return", "Close of the client's mailbox connection had not returned after 20 s")
+					abandon = true
+					return
+				}
 				add("sess.closed c")
 			case "relay-outage":
 				// the relay is unreachable while both sides give up their connection: every stream
 				// operation, closing the streams included, fails; then it comes back
 				relay.SetDown(true)
 				time.Sleep(300 * time.Millisecond)
-				cli.Mailbox.Close()
-				srv.Mailbox.Close()
+				if !closeTimed(cli.Mailbox) {
+					viol("C11/close-does-not-return", "Close of the client's mailbox connection had not returned after 20 s")
+					abandon = true
+					return
+				}
+				if !closeTimed(srv.Mailbox) {
+					viol("C11/close-does-not-return", "Close of the server's mailbox connection had not returned after 20 s")
+					abandon = true
+					return
+				}
 				add("sess.closed c")
 				add("sess.closed s")
 				relay.SetDown(false)
@@ -168,8 +209,16 @@ func c11Run(ops []string, seed int) (lines []string, viols []Violation, info map
 				a, b := mailbox.GetSID(sid, true), mailbox.GetSID(sid, false)
 				relay.DeleteBox(sidKey(a[:]))
 				relay.DeleteBox(sidKey(b[:]))
-				cli.Mailbox.Close()
-				srv.Mailbox.Close()
+				if !closeTimed(cli.Mailbox) {
+					viol("C11/close-does-not-return", "Close of the client's mailbox connection had not returned after 20 s")
+					abandon = true
+					return
+				}
+				if !closeTimed(srv.Mailbox) {
+					viol("C11/close-does-not-return", "Close of the server's mailbox connection had not returned after 20 s")
+					abandon = true
+					return
+				}
 				add("sess.closed c")
 				add("sess.closed s")
 			}
@@ -208,8 +257,16 @@ func c11Run(ops []string, seed int) (lines []string, viols []Violation, info map
 			}
 			add("sess." + op + "-blocked")
 			// end the current connection: the waiting call becomes one side of the next one
-			cli.Mailbox.Close()
-			srv.Mailbox.Close()
+			if !closeTimed(cli.Mailbox) {
+				viol("C11/close-does-not-return", "Close of the client's mailbox connection had not returned after 20 s")
+				abandon = true
+				return
+			}
+			if !closeTimed(srv.Mailbox) {
+				viol("C11/close-does-not-return", "Close of the server's mailbox connection had not returned after 20 s")
+				abandon = true
+				return
+			}
 			add("sess.closed c")
 			add("sess.closed s")
 			if op == "early-accept" {
